@@ -705,7 +705,13 @@ func (fr *Frame) resolveLocal(name string, at *ssa.BasicBlock, st *State) (Term,
 				}
 			case *ssa.DebugRef:
 				if id, ok := ins.Expr.(*ast.Ident); ok && id.Name == name {
-					consider(cand{d, i, ins.X, ins.IsAddr})
+					if al := fr.allocOfVar(ins); al != nil && !ins.IsAddr {
+						// the variable lives in memory (its address is taken): the value noted at an
+						// assignment is stale after later stores through the address
+						consider(cand{d, i, al, true})
+					} else {
+						consider(cand{d, i, ins.X, ins.IsAddr})
+					}
 				}
 			case *ssa.Alloc:
 				if ins.Comment == name {
@@ -730,6 +736,23 @@ func (fr *Frame) resolveLocal(name string, at *ssa.BasicBlock, st *State) (Term,
 		return g.load(st, t.S, p.Elem()), goTy(p.Elem()), true
 	}
 	return t, goTy(best.val.Type()), true
+}
+
+// allocOfVar returns the allocation that holds the source variable a debug reference names, if the variable
+// lives in memory.
+func (fr *Frame) allocOfVar(d *ssa.DebugRef) *ssa.Alloc {
+	obj := d.Object()
+	if obj == nil {
+		return nil
+	}
+	for _, b := range fr.fn.Blocks {
+		for _, ins := range b.Instrs {
+			if al, ok := ins.(*ssa.Alloc); ok && al.Comment == obj.Name() && al.Pos() == obj.Pos() {
+				return al
+			}
+		}
+	}
+	return nil
 }
 
 // enterLoop handles a loop header: invariant on entry, havoc, assume invariant.
